@@ -144,7 +144,9 @@ fn classify(out: &mut Out, ops: &[Option<PMap>], w: &Result<Walked, String>, sta
         out.tally("entries", &w.entries.len().min(12).to_string());
         out.tally("outcome", if w.cycle.is_some() { "cycle" } else if w.other_err.is_some() { "error" } else if w.entries.iter().any(|e| e.1.is_none()) { "flushed" } else { "ok" });
         let multi_op = w.entries.iter().filter_map(|e| e.1).collect::<BTreeSet<_>>().len();
-        if w.entries.len() >= 3 && (multi_op >= 2 || w.cycle.is_some()) { out.nontrivial((show_ops(ops), start.to_vec())); }
+        // non-trivial: a chain of at least two rewrites, entries from at least two operations or a topological sort
+        // inside one operation, or a detected cycle
+        if w.entries.len() >= 3 || multi_op >= 2 || w.cycle.is_some() { out.nontrivial((show_ops(ops), start.to_vec())); }
         if w.entries.iter().any(|e| e.2.len() >= 2) { out.tally("shape", "multi-predecessor"); }
     }
 }
@@ -303,7 +305,7 @@ fn synthetic(cfg: &Cfg, out: &mut Out) {
     let n_pool = 7;
     let mut pool = make_pool(n_pool);
     let mut r = cfg.rng(1);
-    let total = cfg.n(1500, 40_000);
+    let total = cfg.n(3000, 60_000);
     for case in 0..total {
         // sizes grow with the case number so that the first disagreement is small
         let scale = 1 + (case * 6 / total.max(1)) as usize;
@@ -498,7 +500,7 @@ impl Hist {
 
 fn real_histories(cfg: &Cfg, out: &mut Out) {
     let mut r = cfg.rng(2);
-    for h in 0..cfg.n(110, 2500) {
+    for h in 0..cfg.n(250, 4000) {
         let test_repo = TestRepo::init_with_settings(&settings_at(0));
         let repo = test_repo.repo.clone();
         let mut hist = Hist { repo: repo.clone(), _test_repo: test_repo, names: Names::default(), truth: BTreeMap::new(), serial: h * 1000, clock: 1, past: vec![repo.clone()] };
@@ -579,6 +581,16 @@ fn real_histories(cfg: &Cfg, out: &mut Out) {
             starts.push(vec![r.below(n_known) as u64]);
             if heads.len() >= 2 && r.chance(1, 2) { starts.push(heads.clone()); }
             if r.chance(1, 4) { let a = r.below(n_known) as u64; let b = r.below(n_known) as u64; if a != b { starts.push(vec![a, b]); } }
+            // the theorems' hypotheses (Recorded, Fresh) evaluated on the log the real API produced
+            let hyp = possible_history(&maps);
+            out.tally("real-history-hypotheses", if hyp.is_some() { "hold" } else { "fail" });
+            if let Some(t) = &hyp {
+                // … and the log records exactly what the harness saw happen
+                let seen: BTreeMap<u64, Vec<u64>> = hist.truth.iter().filter(|(k, _)| t.contains_key(k)).map(|(k, v)| (*k, v.clone())).collect();
+                if seen != *t { out.oracle_fail("evolog:record-differs-from-rewrites", format!("history {h} after {step_kind}: recorded {t:?}, performed {seen:?}")); }
+            } else {
+                out.sample(format!("hypotheses fail on real history {h} after {step_kind}: {}", show_ops(&maps)));
+            }
             for start in starts {
                 let got = real_walk(&repo, &ops, &hist.names, &start);
                 let resp = match &got { Ok(w) => show_walk(w), Err(_) => "panic".into() };
@@ -592,6 +604,11 @@ fn real_histories(cfg: &Cfg, out: &mut Out) {
 }
 
 pub fn run(cfg: &Cfg, out: &mut Out) {
+    // thousands of small repositories: keep them on tmpfs when there is one (an fsync-heavy run on a busy disk is
+    // 10× slower); `tempfile` honours TMPDIR.  Single-threaded at this point.
+    if std::env::var_os("TMPDIR").is_none() && std::path::Path::new("/dev/shm").is_dir() {
+        unsafe { std::env::set_var("TMPDIR", "/dev/shm") };
+    }
     synthetic(cfg, out);
     real_histories(cfg, out);
     out.note("synthetic op logs over a pool of 7 real commits (well-formed and wild), then real rewrite histories with concurrent operations, restore and revert; operation order taken from the real walk_ancestors".to_string());
